@@ -486,6 +486,12 @@ func (bf *buffer) waitForWriteSpace(n int) (int64, int, error) {
 		return 0, 0, io.EOF
 	}
 
+	// More bytes than the ring holds never fit, however far the consumer gets:
+	// refuse them, as the consumer side does, instead of waiting for ever.
+	if int64(n) > bf.size {
+		return 0, 0, bufio.ErrBufferFull
+	}
+
 	// The current producer position, remember it's a forever inreasing int64,
 	// NOT the position relative to the buffer
 	ppos := bf.pseq.get()
